@@ -55,4 +55,10 @@ theorem C15_units : Gen.scalars = Spec.units ∧
 theorem C15_overflow (n u : Nat) : dateAge n u = (if n * u < 2 ^ 32 then some (n * u) else none) :=
   Proofs.dateAge_spec n u
 
+/-! Non-vacuity: 2026-01-15 12:00:00 UTC, and the zone `-0330`. -/
+example : Model.timegm { year := 2026, mon := 0, mday := 15, hour := 12, min := 0, sec := 0 } = 1768478400 := by
+  decide
+
+example : Model.tzoff [45, 48, 51, 51, 48] = some (-12600) := by decide
+
 end Mdsort.Props
